@@ -7,33 +7,35 @@ R="${1:-/repo}"
 cd "$R" || exit 2
 export CARGO_NET_OFFLINE=true
 OUT=$(mktemp)
+MODE=test
 if [ -f /w/lib/nextest.toml ] && cargo nextest --version >/dev/null 2>&1; then
+  MODE=nextest
+  rm -f target/nextest/pb/junit.xml
   cargo nextest run --workspace --no-fail-fast --tool-config-file pb:/w/lib/nextest.toml --profile pb --test-threads 8 --offline >"$OUT" 2>&1
 else
   cargo test --workspace --no-fail-fast --offline >"$OUT" 2>&1
 fi
-python3 - "$OUT" <<'PY'
-import json,re,sys
-out=open(sys.argv[1]).read()
+python3 - "$OUT" "$MODE" "$R" <<'PY'
+import json,re,sys,os
+import xml.etree.ElementTree as ET
+out=open(sys.argv[1]).read(); mode=sys.argv[2]; R=sys.argv[3]
 base=json.load(open('/root/.vp/BASELINE.json'))
 stable=set(base['stable_pass'])
 passed=set()
-for m in re.finditer(r'^\s*PASS \[[^\]]*\]\s+(\S+)\s+(\S+)',out,re.M):
-    passed.add(m.group(1)+'::'+m.group(2))
-if not passed:
-    # cargo test format
-    cur=None
-    for l in out.splitlines():
-        m=re.match(r'\s*Running (?:unittests )?(\S+)',l)
-        m2=re.match(r'test (\S+) \.\.\. ok',l)
-        if m2: passed.add(m2.group(1))
-    # compare on the test path suffix only
-    stable_s={s.split('::',1)[1] if '::' in s else s for s in stable}
-    missing=[s for s in stable if not any(p.endswith(s.split('::',2)[-1]) for p in passed)]
-else:
+if mode=='nextest':
+    j=os.path.join(R,'target/nextest/pb/junit.xml')
+    if os.path.exists(j):
+        for tc in ET.parse(j).getroot().iter('testcase'):
+            bad=[c for c in tc if c.tag in ('failure','error')]
+            if not bad:
+                passed.add(tc.get('classname')+'::'+tc.get('name'))
     missing=sorted(stable-passed)
+else:
+    ok=set(m.group(1) for m in re.finditer(r'^test (\S+) \.\.\. ok',out,re.M))
+    missing=sorted(s for s in stable if not any(s.endswith('::'+o) or s.split('::',2)[-1]==o for o in ok))
 print('baseline: %d of %d stable tests passed'%(len(stable)-len(missing),len(stable)))
 for m in missing[:20]: print('  MISSING',m)
+if missing: print(out[-3000:])
 sys.exit(1 if missing else 0)
 PY
 rc=$?
